@@ -29,7 +29,11 @@ CHILD_CODE = "import sys; import spec.tier3 as T; T.c29_child(sys.argv[1], sys.a
 def _submitter(root: Path, cfg: dict, tmp: Path):
     from pydra.engine.submitter import Submitter
 
-    kw = {k: v for k, v in cfg.items() if k not in ("readonly",)}
+    kw = {k: v for k, v in cfg.items() if k not in ("readonly", "worker_instance")}
+    if cfg.get("worker_instance") is not None:
+        from pydra.workers.cf import ConcurrentFuturesWorker
+
+        kw["worker"] = ConcurrentFuturesWorker(**cfg["worker_instance"])
     if cfg.get("readonly"):
         (tmp / "ro").mkdir(exist_ok=True)
         kw["readonly_caches"] = [tmp / "ro"]
@@ -256,7 +260,7 @@ def _run(ctx):
         "used / sent back."
     )
     tasks = list(T.p29_pool(Path("/nonexistent")))
-    configs = ctx.pick(["debug-ro-cache", "cf-2"], list(T.P29_CONFIGS))
+    configs = ctx.pick(["debug-ro-cache", "cf-2", "cf-instance-3"], list(T.P29_CONFIGS))
     dom = ctx.domain(
         "jobs-in-a-fresh-interpreter",
         bound=f"{len(tasks)} tasks ({', '.join(tasks)}) x configurations {configs}{'' if ctx.thorough else ' (quick: wf-nested, wf-file, py-stats, py-file-in only under the debug worker)'}; {'one fresh interpreter per case' if ctx.thorough else 'one fresh interpreter per (configuration, task kind python/shell/workflow)'}, PYTHONHASHSEED = 1 + (seed + case index) mod 1000",
